@@ -1,6 +1,6 @@
 (* C08 — inline(m) denotes exactly the function of m, for any valid m.  Property theorems only. *)
 From Coq Require Import List String Bool Arith.
-From Spox Require Import Base IR Show Build Sem Plan Validate BuildFacts Inline InlineFacts.
+From Spox Require Import Base IR Show Build Sem Plan Validate BuildFacts Inline InlineFacts CompilePres ScopeFacts InlineDefs InlineInj.
 Import ListNotations.
 
 (* Call boundary: positional arguments bind in input order, keywords by name, omitted inputs take the default of that name. *)
@@ -75,3 +75,37 @@ Theorem C08_renaming_functional_injective :
              (pair_injective ps = true -> forall a b, In a ps -> In b ps -> snd a = snd b -> snd a <> ""%string -> fst a = fst b).
 Proof. intros ps. split; [apply pair_functional_sound|apply pair_injective_sound]. Qed.
 Print Assumptions C08_renaming_functional_injective.
+
+(* The renaming of an inlined model, by construction (no validator): (1) every name defined in the emitted block comes from a
+   definition of the inlined model through the relation Rn of the final renaming state, (2) Rn is a function of the inner name, and
+   (3) it is injective: two inner names renamed to one non-empty outer name are the same name, or both are inputs of the inlined
+   model which the caller bound to one outer value.  I.e. the block is the inlined model up to a consistent renaming. *)
+Theorem C08_block_definitions_come_from_the_model :
+  forall nm u operands gi go_ s2 body vi ri sri rb srb ro sro rvi srvi,
+  mapS (rename_val nm u operands gi go_) (s2, [], []) gi = inl (ri, sri) ->
+  (fix go (st : rstate) (l : list onode) {struct l} : res (list mraw * rstate) :=
+     match l with
+     | [] => ret ([], st)
+     | n :: t => do rn <- rename_onode nm u operands gi go_ st n ;; do rt <- go (snd rn) t ;; ret (fst rn :: fst rt, snd rt)
+     end) sri body = inl (rb, srb) ->
+  mapS (rename_val nm u operands gi go_) srb go_ = inl (ro, sro) ->
+  mapS (rename_val nm u operands gi go_) sro vi = inl (rvi, srvi) ->
+  InvVt srvi /\ vname (fst (fst srvi)) = vname s2 /\
+  Cov u operands gi go_ srvi (flat_map odefs_node body) (flat_map defs_raw rb).
+Proof. exact inline_block_state_ok. Qed.
+Print Assumptions C08_block_definitions_come_from_the_model.
+
+Theorem C08_renaming_is_a_function :
+  forall u operands in_names out_names st d r r',
+  Rn u operands in_names out_names st d r -> Rn u operands in_names out_names st d r' -> r = r'.
+Proof. exact Rn_functional. Qed.
+Print Assumptions C08_renaming_is_a_function.
+
+Theorem C08_renaming_is_injective :
+  forall u operands in_names out_names st d d' r,
+  ScopeInv (fst (fst st)) -> InvVt st ->
+  (forall i v k, nth i operands None = Some v -> v <> V u k) ->
+  Rn u operands in_names out_names st d r -> Rn u operands in_names out_names st d' r -> r <> ""%string ->
+  d = d' \/ (index_last d in_names 0 None <> None /\ index_last d' in_names 0 None <> None).
+Proof. exact Rn_injective. Qed.
+Print Assumptions C08_renaming_is_injective.
